@@ -65,6 +65,26 @@ CHECKS = {
         technique='TLA+ spec (EduceRun.RenderUnion/PropUnion, MC_C20) model-checked with TLC; TLC-enumerated corpus compiled with the real derive; byte-level observations validated by TLC against TraceR.tla',
         text="The specification models each union impl as a function of the size_of::<Self>() bytes (in-spec renderer of the Debug byte list under the effective name, byte-sequence equality, the slice's own hash feed, bitwise clone); TLC checks the byte-view machine and injectivity of the text; every union shape is compiled and every byte pattern observed. The `unsafe` gating is decided on the expansion channel (C13 corpus).",
         design_ref='DESIGN.md section 6 (C20)', note=TB_R),
+    'C13': dict(
+        technique='TLA+ scanner specification (EduceScan.Verdict / ScanStep, MC_C13) model-checked with TLC; every (context, meta) pair TLC enumerates is injected into a real item and expanded by the real macro entry point; outcomes validated by TLC against TraceX.tla',
+        text='The attribute scanner is specified as tables (which form / parameter / value kind each trait accepts at each position) plus the parameter-loop step machine with its *_is_set flags; TLC checks machine = table and termination, and emits ~50k inputs with their verdict; structural classes (duplicate traits/ranks/targets, missing or duplicate designations, unions, unit variants, unprintable Debug shapes) come from a second corpus over positions and spellings. Every input that must be refused has to produce a diagnostic (not a panic, not silent acceptance); every input that must be accepted has to expand.',
+        design_ref='DESIGN.md section 6 (C13)', note=TB_X),
+    'C14': dict(
+        technique='TLA+ spelling table (EduceSpell) and site enumeration (MC_C14.SitesOf) checked with TLC; spelling groups rendered from the table and expanded by the real macro entry point; token equality inside each group validated by TLC against TraceX.tla (learned first member)',
+        text='The specification owns the spelling dimension: every class lists all ways to write one request (the renderer takes its templates from TLC output); for every multi-trait configuration TLC lists the spelling sites, the harness cross-checks them against the renderer (generator echo) and expands one group per site with every member of the class; all members must be accepted and token-identical.',
+        design_ref='DESIGN.md section 6 (C14)', note=TB_X),
+    'C15': dict(
+        technique="TLA+ spec (MC_C15: Restrict / PlanOf over EduceMulti) model-checked with TLC; for every (configuration, trait) pair the full and the restricted item are expanded by the real macro entry point; token equality of the trait's impl items validated by TLC against TraceX.tla",
+        text="TLC checks on the specification that each trait's plan is unchanged when all other traits' settings are reset (and that the restriction stays acceptable); the harness expands the full configuration (canonical and with mixed spelling / order / attribute splitting) and the restricted one and requires the impl items of the trait to be token-identical.",
+        design_ref='DESIGN.md section 6 (C15)', note=TB_X),
+    'C16': dict(
+        technique='TLA+ emission model (MC_C16, self-composition; hashed-map configuration kept as an expected counterexample) model-checked with TLC; repeated in-process and cross-process expansions of TLC-enumerated inputs validated by TLC against TraceX.tla',
+        text='The specification runs two expansions of the same input side by side: with key-ordered iteration of the Into target map they always agree, with hash-map iteration TLC produces the two-target counterexample (checked on every run as a regression test of the model). Every input (all subsets of four Into targets x shapes x attribute orders, plus the multi-trait corpus) is expanded several times in one process and in several fresh processes with different histories; all token streams of one input must be equal.',
+        design_ref='DESIGN.md section 6 (C16)', note=TB_X),
+    'C17': dict(
+        technique='TLA+ scanner specification (termination / verdict in {ok, err} for every abstract input, MC_C13) model-checked with TLC; all model inputs plus seeded token-level mutations and stress inputs expanded by the real macro entry point in a guarded child; outcomes validated by TLC against TraceX.tla; candidates confirmed through the real compiler',
+        text='The scanner specification terminates with ok/err on every abstract input including every value kind at every parameter; the harness runs all of them, the structural negatives, seeded token mutations and depth/length stress inputs through the real entry point under catch_unwind with a timeout and a 64 MB stack; anything other than items or a diagnostic is a candidate that is confirmed with the real compiler (proc-macro panicked) before it is reported.',
+        design_ref='DESIGN.md section 6 (C17)', note=TB_X),
 }
 
 NOT_YET = 'check not built yet (work in progress, see DESIGN.md section 11)'
